@@ -510,7 +510,7 @@ def gen_software_matrix(rng, size: int = 1, agents: bool = True) -> dict:
     musts = rng.shuffle(list(SOFTWARE_VOCABULARY))  # spread: every type appears on some host as scenarios accumulate
     hosts: List[dict] = []
     for i in range(n_hosts):
-        h: Dict[str, Any] = {"hostname": f"host_{i + 1}", "type": rng.choice(["computer", "server"]),
+        h: Dict[str, Any] = {"hostname": f"host_{i + 1}", "type": rng.choice(["computer", "server", "computer", "server", "printer"]),
                              "ip_address": f"{env['prefix']}.{10 + i}", "subnet_mask": "255.255.255.0", "default_gateway": gateway}
         if states[i] is not None:
             h["operating_state"] = states[i]
